@@ -27,6 +27,7 @@ EXPLANATION = (
     " R8 also covers the graph: the run/map/execute paths have no write or mutation effect on the graph parameter — followed through call results that alias it ('spec = resolve(graph)' returning graph.inputs) — except the lazy memoisation inside the graph's own properties."
     " R1 also requires that an input is left out of a nested graph node's collected inputs only on the resolver's own classification (get_value_source(...) == DEFAULT)."
     " R5 also requires that bind() starts from the graph's own bindings (not the merged view); R2 that a handler's dict answer is copied before the signal names are written into it."
+    " R6 also requires that the mapping map() varies, broadcasts and clones derives from the caller's values only: nothing that reads a graph's bound values flows into generate_map_inputs."
 )
 NOT_DECIDED = "Equality of results across repeated/concurrent runs as such; behaviour of user objects that refuse deepcopy (reported as GraphConfigError by design)."
 
